@@ -47,6 +47,12 @@ CHECKS = {
  "C12": dict(cat="exploration", technique="runtime oracle on AllocIP replies of the real networkService in local / CRD / PodENI mode (independent subnet + gateway evaluator, default-route and primary-interface counting, reply-vs-record comparison) + in-package differential monitor of the plugin's parseSetupConf/parseCheckConf/parseTearDownConf against the datapath table",
      text="Replies are produced by the real daemon over (i) the local pool on the simulated cloud, (ii) the real CRDV2.multiIP over generated Node CRs and (iii) the real eni.Remote over generated PodENI objects with 1..4 interfaces, trunk or not, 0/1/2/all default-route flags, with and without eth0; each reply must name one default route and the primary interface, carry addresses inside the reported subnet with the third-from-last gateway != address, and malformed allocations must be rejected. In plugin/terway (overlay) 40k generated (daemon configuration x CNI configuration) pairs are parsed for ADD/CHECK/DEL and compared field by field and against the (IP type, trunk, vlan mode) table.",
      note="Node CR / PodENI contents are generated well-formed apart from the flag patterns under test; MAC \"\" resolves to lo where the plugin needs a kernel device.", ref="§2 C12"),
+ "C02": dict(cat="exploration", technique="runtime monitor on every Node CR write (API-server observer) and on every agent reply in closed-loop IPAM histories: real multi-ip ReconcileNode + real daemon service/CRDV2 agent on a simulated API server and a simulated cloud with faults, drift, controller restarts, take-over records; race detector",
+     text="Histories of pod creation, reconcile, CNI ADD/DEL, forced and graceful deletion, agent flush/GC, controller restart, cloud drift, cloud and API-server faults run against the real controller and the real node agent. Every stored Node record is judged: a pod holds at most one IPv4 and one IPv6, both on one interface; a new binding uses a Valid address on an InUse interface; RDMA pods sit on RDMA interfaces and only they; an interface is not marked Deleting while an address on it is bound; a pod that already reports addresses is re-adopted onto exactly those; the agent hands out exactly what the record binds.",
+     note="Cloud simulated at the register.Interface boundary, API server simulated (optimistic locking, status subresources, field selector); schedules are sampled, not enumerated; the controller's map iteration order makes histories non-replayable bit-for-bit (replay files carry the event trace).", ref="§2 C02"),
+ "C03": dict(cat="exploration", technique="reclaim guard (runtime monitor) on every Node CR write and every cloud unassign/detach/delete against the kubelet simulator's ground truth and the stored NodeRuntime; NodeRuntime write observer; step-counted bounded progress; race detector",
+     text="Same closed loop as C02 with deletion choreographies drawn per pod (graceful, forced, DEL never, stale DEL replays, sandbox restarts), lost/failing/first-ever NodeRuntime writes, agent GC rounds with failing pod reads and aged runtime records, pool GC pressure, controller restarts. Each write that unbinds, re-binds, marks Deleting or drops a bound address and each cloud release call is judged against (pod exists | sandbox live | teardown not reported); each newly reported teardown against the DELs the agent processed or the pods it verified gone; a pod that is gone, torn down and reported must have its addresses free within 10 reconciles.",
+     note="Bounded progress = 10 reconciles after faults stop. Reclaims that follow an out-of-band cloud removal of the pod's address are counted, not judged. Two known findings (podUID-less legacy entries) are listed in known_findings.json.", ref="§2 C03"),
  "C19": dict(cat="exploration", technique="differential runtime oracle: independent arithmetic on generated instance-type vectors vs the real limit provider -> checkInstance/getPoolConfig and controller ReconcileNode -> daemon-side nodeReconcile -> controller (annotations, allocatable) on the simulated API server",
      text="Instance-type vectors and configurations are generated; the real LimitProviders[ecs] (GetLimit over a simulated DescribeInstanceTypes, and GetLimitFromAnno), daemon checkInstance/getPoolConfig, controller node.ReconcileNode and the daemon-side Node-CR reconciler are run in their production order; every advertised number (MaxENI, per-ENI addresses, capacity, watermarks, member ENIs, RDMA capacity, flavor counts, max-available-ip, allocatable eni/member-eni) is compared with the independently computed instance limits, and features the type lacks must be reported disabled.",
      note="Default ratio 1 / shift 0, non-negative sizes. The daemon-side ERDMA flavor is not exercised (enabling it starts the kubelet device plugin, which exits the process in this sandbox).", ref="§2 C19"),
